@@ -67,6 +67,10 @@ func (c08DNAT) AddEntry(*net.IP, uint16, *net.IP, uint16) error {
 
 // ---- universe: the registrations a history can talk about ---------------------------------------
 
+// c08Covert is where the registrations want to be proxied to: a loopback port nothing listens on, so that the
+// real Proxy() of a connection does everything it does to the registration and returns on "connection refused".
+const c08Covert = "127.0.0.1:1"
+
 const (
 	c08Unused = 10  // minutes: lifetime of a registration that has not carried a connection
 	c08Active = 360 // minutes: lifetime of one that has
@@ -185,7 +189,7 @@ func c08BuildUniverse(t *testing.T, nSecrets, nTransports int, pins map[int]c08P
 						SharedSecret: secret,
 						RegistrationPayload: &pb.ClientToStation{
 							ClientLibVersion: proto.Uint32(core.CurrentClientLibraryVersion()), Transport: c08Transports[ti].tt.Enum(),
-							CovertAddress: proto.String("192.0.2.99:443"), DecoyListGeneration: proto.Uint32(957),
+							CovertAddress: proto.String(c08Covert), DecoyListGeneration: proto.Uint32(957),
 							V4Support: proto.Bool(!v6), V6Support: proto.Bool(v6), TransportParams: ap,
 						},
 						RegistrationSource:  &src,
@@ -288,6 +292,7 @@ type c08Enum struct {
 	alpha, alphaS0 []c08Op // all letters; the letters allowed while no registration has been named yet
 	maxLen         int
 	symmetric      bool // enumerate modulo renaming of the two secrets: the first registration named is one of secret 0
+	proxy          bool // matched connections also go through the real Proxy() (a refused loopback dial each)
 }
 
 func (en *c08Enum) letters(seenKey bool) []c08Op {
@@ -334,6 +339,7 @@ type c08Ent struct {
 	age                  int  // whole minutes since it was first tracked (a duplicate does not renew it)
 	hadSib, hadCo        bool // during this tracking epoch it was tracked together with a sibling / a co-tenant
 	ever                 bool // was tracked at some point of this history
+	proxied              bool // a connection of it went through the real Proxy()
 	lastUsed             bool
 }
 
@@ -385,6 +391,7 @@ type c08Cnt struct {
 	nKeptUsed  int // kept by a sweep only because it had carried a connection (age >= 10 min)
 	nEither    int
 	nAdoptGone int
+	nExpProxy  int // expired although (in fact: regardless of whether) it had been proxied
 }
 
 type c08Viol struct {
@@ -400,6 +407,7 @@ type c08Worker struct {
 	rm    *RegistrationManager
 	m     []c08Ent
 	fresh bool // parse the message afresh for every delivery (else: copy of the once-parsed registration)
+	proxy bool // a matched connection also goes through the real Proxy(), as in the connection handler
 	full  bool // API-level look-up after every operation (else: after the last one)
 
 	detNew, detUpd int64
@@ -423,6 +431,7 @@ type c08Worker struct {
 	sigN                                   map[string]int
 	slow                                   int64
 	fastObjections, fastMismatch           int64
+	proxyCalls, decExpProxy                int64
 	crossChecks                            int64
 }
 
@@ -556,9 +565,17 @@ func (w *c08Worker) apply(pos int, o c08Op) {
 				w.diverged = true
 				w.violate(pos, "match:wrong-registration", fmt.Sprintf("the look-up for %s returned another registration", key.name))
 			} else {
+				// what handleNewConn does with the registration a transport returned: MarkActive, then Proxy
 				w.rm.MarkActive(dr)
+				if w.proxy {
+					laddr := &net.TCPAddr{IP: key.phantom, Port: int(dr.PhantomPort)}
+					raddr := &net.TCPAddr{IP: net.IPv4(203, 0, 113, byte(10+key.S)).To4(), Port: 40000 + pos}
+					Proxy(dr, kit.NewScriptConn("client", laddr, raddr, nil, kit.EndEOF), w.rm.Logger)
+					w.proxyCalls++
+				}
 				if expect {
 					e.used = true
+					e.proxied = e.proxied || w.proxy
 				}
 				w.connMatched++
 			}
@@ -596,6 +613,9 @@ func (w *c08Worker) apply(pos int, o c08Op) {
 			case c08Expired:
 				if e.used {
 					w.c.nExpUsed++
+					if e.proxied {
+						w.c.nExpProxy++
+					}
 				} else {
 					w.c.nExpUnused++
 				}
@@ -912,6 +932,7 @@ func (w *c08Worker) addDecisions(prev c08Cnt) {
 	w.decKeptUsed += int64(w.c.nKeptUsed - prev.nKeptUsed)
 	w.decEither += int64(w.c.nEither - prev.nEither)
 	w.adoptGone += int64(w.c.nAdoptGone - prev.nAdoptGone)
+	w.decExpProxy += int64(w.c.nExpProxy - prev.nExpProxy)
 }
 
 // ---- enumeration without re-executing the prefix ------------------------------------------------------
@@ -1004,7 +1025,7 @@ func (w *c08Worker) digest() string {
 	rd.m.RLock()
 	for p, set := range rd.decoys {
 		for id, r := range set {
-			parts = append(parts, fmt.Sprintf("D %s %x valid=%v n=%d", p, id, r.Valid, r.regCount))
+			parts = append(parts, fmt.Sprintf("D %s %x valid=%v n=%d tunnels=%d", p, id, r.Valid, r.regCount, r.tunnelCount))
 		}
 	}
 	for idx, to := range rd.decoysTimeouts {
@@ -1123,6 +1144,8 @@ func (w *c08Worker) flush(mon string) {
 	r.Count("sweep_decisions_keep_only_because_used", int(w.decKeptUsed))
 	r.Count("sweep_decisions_expire_unused", int(w.decExpUnused))
 	r.Count("sweep_decisions_expire_used", int(w.decExpUsed))
+	r.Count("sweep_decisions_expire_used_after_real_proxy", int(w.decExpProxy))
+	r.Count("connections_through_real_proxy", int(w.proxyCalls))
 	r.Count("sweep_decisions_on_boundary_either_accepted", int(w.decEither))
 	r.Count("past_lifetime_gone_before_sweep_accepted", int(w.adoptGone))
 	r.Count("duplicate_deliveries", int(w.dupDeliveries))
@@ -1183,11 +1206,16 @@ func TestVerifC08Exhaustive(t *testing.T) {
 	var all []*c08Worker
 	// quick: every history up to 4, and up to 5 modulo renaming of the two secrets; thorough: up to 5, and up to 6 modulo renaming
 	for _, en := range []*c08Enum{
-		{alpha: alphabet, alphaS0: alphaS0, maxLen: kit.Tier(4, 5), symmetric: false},
-		{alpha: alphabet, alphaS0: alphaS0, maxLen: kit.Tier(5, 6), symmetric: true},
+		{alpha: alphabet, alphaS0: alphaS0, maxLen: kit.Tier(4, 5), symmetric: false, proxy: true},
+		{alpha: alphabet, alphaS0: alphaS0, maxLen: kit.Tier(5, 6), symmetric: true, proxy: !kit.Thorough()}, // 17 M refused dials would not fit the thorough budget
 	} {
 		all = append(all, c08Enumerate(t, rec, u, en, canCopy)...)
 		what := fmt.Sprintf("every history of length <= %d over the %d-letter alphabet {register, validate, connect} x {2 secrets x (min, prefix) x (v4, v6 phantom)} + advance{4m,7m,3h,4h} + sweep", en.maxLen, len(alphabet))
+		if en.proxy {
+			what += "; every matched connect = look-up + MarkActive + the real Proxy()"
+		} else {
+			what += "; a matched connect = look-up + MarkActive"
+		}
 		if en.symmetric {
 			what += ", modulo renaming of the two secrets (the first registration a history names belongs to secret 0)"
 		}
@@ -1200,6 +1228,7 @@ func TestVerifC08Exhaustive(t *testing.T) {
 
 	// a few written-out histories (re-run on a separate worker so that they do not count twice)
 	sw := c08NewWorker(t, u, rec)
+	sw.proxy = true
 	c08Guard(t, func() {
 		op := func(kind uint8, k int) c08Op { return c08Op{Kind: kind, K: int8(k)} }
 		adv := func(d int16) c08Op { return c08Op{Kind: c08Adv, D: d} }
@@ -1276,6 +1305,7 @@ func c08Enumerate(t *testing.T, rec *kit.Rec, u *c08Universe, en *c08Enum, canCo
 
 	// histories of length 1 and 2 are visited here; the sub-trees below them are fanned out to the workers
 	root := c08NewWorker(t, u, rec)
+	root.proxy = en.proxy
 	c08Guard(t, func() {
 		top := 2
 		if en.maxLen < top {
@@ -1303,6 +1333,7 @@ func c08Enumerate(t *testing.T, rec *kit.Rec, u *c08Universe, en *c08Enum, canCo
 	var fatal interface{}
 	for i := 0; i < c08Workers(); i++ {
 		w := c08NewWorker(t, u, rec)
+		w.proxy = en.proxy
 		workers = append(workers, w)
 		wg.Add(1)
 		go func() {
@@ -1412,6 +1443,22 @@ func TestVerifC08Random(t *testing.T) {
 		}
 		seqs[i] = seq
 	}
+	// a deterministic handful first: every registration of the universe is validated, connected through the real
+	// Proxy(), aged past 6 hours and swept (it must be forgotten, however many tunnels it carried)
+	var fixed [][]c08Op
+	for k := range u.keys {
+		kk := int8(k)
+		adv := func(d int16) c08Op { return c08Op{Kind: c08Adv, D: d} }
+		first := c08Op{Kind: c08Ingest, K: kk}
+		if u.keys[k].tt == pb.TransportType_DTLS {
+			first = c08Op{Kind: c08Val, K: kk}
+		}
+		fixed = append(fixed,
+			[]c08Op{{Kind: c08Val, K: kk}, {Kind: c08Con, K: kk}, adv(240), adv(240), {Kind: c08Sweep}, {Kind: c08Look}, {Kind: c08Con, K: kk}},
+			[]c08Op{first, {Kind: c08Con, K: kk}, {Kind: c08Con, K: kk}, adv(180), {Kind: c08Sweep}, {Kind: c08Con, K: kk}, adv(240), {Kind: c08Sweep}, {Kind: c08Look}, {Kind: c08Reg, K: kk}, adv(7), adv(4), {Kind: c08Sweep}})
+	}
+	seqs = append(fixed, seqs...)
+	n = len(seqs)
 	ch := make(chan job, n)
 	for i, s := range seqs {
 		ch <- job{i, s}
@@ -1423,7 +1470,7 @@ func TestVerifC08Random(t *testing.T) {
 	var fatal interface{}
 	for i := 0; i < nw; i++ {
 		w := c08NewWorker(t, u, rec)
-		w.fresh, w.full = true, true
+		w.fresh, w.full, w.proxy = true, true, true
 		workers = append(workers, w)
 		wg.Add(1)
 		go func() {
@@ -1438,7 +1485,7 @@ func TestVerifC08Random(t *testing.T) {
 			for j := range ch {
 				w.run(j.seq, 0, true)
 				w.addDecisions(c08Cnt{})
-				if j.i < 2 {
+				if j.i == 1 || j.i == len(fixed) || j.i == len(fixed)+1 {
 					rec.Sample(map[string]interface{}{"history": u.seqString(j.seq), "sweep_decisions": fmt.Sprintf("kept %d (of which %d only because used), expired unused %d, expired used %d", w.c.nKeep, w.c.nKeptUsed, w.c.nExpUnused, w.c.nExpUsed),
 						"violations": len(w.viols)})
 				}
@@ -1449,8 +1496,13 @@ func TestVerifC08Random(t *testing.T) {
 	if fatal != nil {
 		t.Fatalf("infrastructure: worker failed: %v", fatal)
 	}
+	var viaProxy int64
 	for _, w := range workers {
+		viaProxy += w.decExpProxy
 		w.flush("random")
+	}
+	if viaProxy < int64(len(fixed)) {
+		t.Fatalf("infrastructure: only %d sweeps had to forget a registration that had been connected through the real Proxy(); the workload does not exercise what it claims", viaProxy)
 	}
 	rec.Note(fmt.Sprintf("universe: %s", c08UniverseString(u)))
 	rec.Note("even-numbered histories never track one secret with two transports on the same phantom at once, so that long histories are judged to the end even while the known shared-timeout-record finding is open")
